@@ -1915,7 +1915,8 @@ def r6_backup(ctx: RuleCtx) -> None:
             ctx.require(v, f'{qn}: `{short(s.call)}` may name {hit[0]}; its absence (partial build directory) is handled: FileNotFoundError handler or existence test of that name',
                         mod, qn, s.call, f'`{short(s.call)}` may name meson-private/{hit[0]} ({P.show_all(terms)}), which a killed first setup or wipe leaves missing, '
                         f'yet no handler for FileNotFoundError encloses it and no existence test of that name dominates it: `meson setup --wipe` dies on a partial build directory', s.call)
-    ctx.floor('copies/reads of recovery-critical files by name in msetup', n, 1)
+    if n == 0:
+        raise Undecided('msetup: no copy/read of a recovery-critical file whose name folds from constants (the backup before a wipe is spelled in a way the rule does not follow)')
 
 
 LOADERS = {'pickle.load': ('EOFError', 'UnpicklingError'), 'json.load': ('ValueError',)}
